@@ -839,7 +839,9 @@ where
             header.fairness_constraint_count,
         ];
 
-        self.code = (header.input_count + 1) * 2;
+        // This can only overflow when all variables are inputs, in which case there are no
+        // latches or and gates that would use it.
+        self.code = (header.input_count + 1).saturating_mul(2);
 
         let mut fields = fields.as_slice();
 
